@@ -58,8 +58,8 @@ CHECKS = {
         note="Lock-step cuts are at command boundaries of the target's input with a static offset base; the end-to-end part (System.tla, SystemTrace.tla) runs the whole DbSyncer.Sync() against a scripted source with connection drops and, in a process of its own, kills it with SIGKILL at sampled moments and restarts it, judging every target transaction; mredis stands in for the target."),
     "C07": dict(
         level="model_checking", design="DESIGN.md 4/C07",
-        technique="TLA+ model of the worker pool (FullSync.tla) model-checked by TLC over all entry sequences and interleavings; entry sequences from the model's initial states concretised and run through the real syncRDBFile/restoreRDBFile against a model Redis whose command processing is scheduled (random / starve-one-connection), with the per-connection command log and final keyspace validated by TLC (FsTrace.tla)",
-        text="TLC proves right content, exactly-once, all-processed, failure-reported and termination for every interleaving of 2-3 workers over every sequence of <= 3-4 entries (plain, filtered, failing, two-chunk hash; with and without target.db); the real worker pools are bound by trace validation: every command's database, one writer and at most one successful RESTORE per key, every unfiltered key equal to the source value (independent decoder), failures reported (pre-existing keys under policy none, and target faults such as a busy script / OOM on one RESTORE under every policy), Parallel 1..8 under adversarial scheduling of the target, including the whole restore command over 1-3 input files and fixed target.db x db-filter scenarios in every mode.",
+        technique="TLA+ model of the worker pool (FullSync.tla) model-checked by TLC over all entry sequences and interleavings; entry sequences from the model's initial states concretised and run through the real syncRDBFile/restoreRDBFile against a model Redis whose command processing is scheduled (random / starve-one-connection), with the per-connection command log and final keyspace validated by TLC (FsTrace.tla); several sources at once: TLA+ model of the syncers sharing the full-sync semaphore (FanIn.tla) model-checked by TLC, real runs of 2-6 Sync() into one target validated by TLC against the model's own actions (FanInTrace.tla)",
+        text="TLC proves right content, exactly-once, all-processed, failure-reported and termination for every interleaving of 2-3 workers over every sequence of <= 3-4 entries (plain, filtered, failing, two-chunk hash; with and without target.db); the real worker pools are bound by trace validation: every command's database, one writer and at most one successful RESTORE per key, every unfiltered key equal to the source value (independent decoder), failures reported (pre-existing keys under policy none, and target faults such as a busy script / OOM on one RESTORE under every policy), Parallel 1..8 under adversarial scheduling of the target, including the whole restore command over 1-3 input files and fixed target.db x db-filter scenarios in every mode. Several sources into one target: never more full synchronisations than source.rdb.parallel, no permit leaked or released twice, every source served (refused PSYNCs, sources continuing from a checkpoint, the retry limit), every source's keys / command stream / checkpoint intact in the shared target.",
         note="Entry-to-worker assignment is the Go runtime's; the scheduler orders only the target side. One open finding (chunk/rewrite race) is listed in known_findings.json."),
     "C06": dict(
         level="model_checking", design="DESIGN.md 4/C06",
